@@ -54,6 +54,7 @@ type Env struct {
 	where       string
 	facts       []string // heap well-formedness facts about ground pointer loads
 	topSt       *State
+	inTrigger   bool
 }
 
 func (fe *FuncEnc) envAt(st *State, at *ssa.BasicBlock) *Env {
@@ -657,9 +658,11 @@ func (env *Env) quant(x *CQuant) EV {
 	var trig string
 	if len(x.Trig) > 0 {
 		var ts []string
+		env.inTrigger = true
 		for _, t := range x.Trig {
 			ts = append(ts, env.rvalue(env.eval(t)).T)
 		}
+		env.inTrigger = false
 		trig = " :pattern (" + strings.Join(ts, " ") + ")"
 	}
 	for n, o := range saved {
@@ -816,6 +819,9 @@ func (env *Env) callExpr(x *CCall) EV {
 		mt, ok := m.Typ.Underlying().(*types.Map)
 		if !ok {
 			env.errf("has() needs a map")
+		}
+		if env.inTrigger {
+			return EV{T: fmt.Sprintf("(select %s %s)", fe.mapHasArr(env.st, mt, m.T), k.T), Typ: boolT}
 		}
 		return EV{T: fmt.Sprintf("(and (not (= %s 0)) (select %s %s))", m.T, fe.mapHasArr(env.st, mt, m.T), k.T), Typ: boolT}
 	case "typeis":
@@ -1013,6 +1019,10 @@ func (env *Env) locsOf(l CExpr) []assignLoc {
 		if len(c.Args) == 1 {
 			if s, ok := c.Args[0].(*CSel); ok {
 				if id, ok := s.X.(*CIdent); ok {
+					if g, ok := fe.eng.cs.Ghosts[id.Name+"."+s.Name]; ok {
+						fe.heapSorts[ghostVar(g)] = arrSort(ghostSort(g))
+						return []assignLoc{{hv: ghostVar(g), all: true, addr: "0"}}
+					}
 					t, _ := env.resolveType(id.Name)
 					stT := t.Underlying().(*types.Struct)
 					for i := 0; i < stT.NumFields(); i++ {
